@@ -242,8 +242,12 @@ def calib_job(job) -> dict:
         with warnings.catch_warnings():
             warnings.simplefilter("ignore")
             del CALLS[:], EVALS[:]
-            algo = Algorithm(type=job.get("algo", "sade"), generations=job.get("generations", 2),
-                             population_size=job.get("pop", 8))
+            if job.get("algo") == "nlopt":     # a local optimiser: the optimised individual may replace any other one
+                algo = Algorithm(type="nlopt", population_size=job.get("pop", 8), nlopt_selection=job.get("sel", "worst"),
+                                 replacement=job.get("rep", "best"), maxeval=job.get("maxeval", 6))
+            else:
+                algo = Algorithm(type=job.get("algo", "sade"), generations=job.get("generations", 2),
+                                 population_size=job.get("pop", 8))
             cal, det, pipe = make_calibration(
                 kcfg, wd, job.get("variant", 0), algo=algo, extra=job.get("extra"),
                 pygmo_seed=job.get("pygmo_seed", 11), pipeline_seed=job.get("pipeline_seed"),
